@@ -112,7 +112,6 @@ package commands
 //@   property C07
 //@   option nosafety
 //@   loop 0 invariant forall j int :: 0 <= j && j <= $idx ==> checks[j].GetCorrelationId() != "" && inDom(seen, checks[j].GetCorrelationId())
-//@   loop 0 invariant forall s string :: inDom(seen, s) ==> (exists j int :: 0 <= j && j <= $idx && checks[j].GetCorrelationId() == s)
 //@   loop 0 invariant forall j int, k int :: 0 <= j && j < k && k <= $idx ==> checks[j].GetCorrelationId() != checks[k].GetCorrelationId()
 //@   ensures @nonEmpty err == nil ==> forall j int :: 0 <= j && j < len(checks) ==> checks[j].GetCorrelationId() != ""
 //@   ensures @distinct err == nil ==> forall j int, k int :: 0 <= j && j < k && k < len(checks) ==> checks[j].GetCorrelationId() != checks[k].GetCorrelationId()
@@ -311,3 +310,60 @@ package commands
 //@     after call typesystem.NewAndValidate args _, m returning t, e : validated = e == nil ; validatedModel = m
 //@     before call storage.TypeDefinitionWriteBackend.WriteAuthorizationModel args _, _, st, m : assert validated && m == validatedModel && st == req.GetStoreId()
 //@     after call storage.TypeDefinitionWriteBackend.WriteAuthorizationModel args _, _, st, m returning e : written = true ; writeErr = e ; writtenID = m.GetId()
+
+// ------------------------------------------------------------------ ListObjects (C05, C10): limit gate and confirmation by Check
+// an object is sent only after a slot was reserved by adding exactly one to the shared counter and the reservation is
+// within the limit (0 = no limit); what is sent is exactly this object on the results channel
+//@ func trySendObject(ctx, object, objectsFound, maxResults, resultsChan)
+//@   property C05
+//@   option nosafety
+//@   monitor limit
+//@     ghost reserved = false
+//@     ghost slot int = 0
+//@     after call (*atomic.Uint32).Add args c, d returning n : reserved = c == objectsFound && d == 1 ; slot = n
+//@     before call concurrency.TrySendThroughChannel args _, v, ch : assert (maxResults != 0 ==> reserved && slot <= maxResults) && v.ObjectID == object && v.Err == nil && ch == resultsChan
+
+// (C11, monitor invalidationWiring) the confirmation Check must be built with the query's shared cache resources, so that
+// its CheckQuery consults the cache controller for the last invalidation time; on the pinned tree it is not (known
+// finding: ListObjects' inner Checks run with the no-op controller and never see invalidations of the query cache).
+// a candidate that needs further evaluation is returned only if the Check of exactly (candidate object, the request's
+// relation and user) in the request's store, with the request's contextual tuples, context and consistency, succeeded
+// and allowed it
+//@ func (*ListObjectsQuery).evaluate$1$2(ctx) (err)
+//@   property C05 C10 C11
+//@   option nosafety
+//@   option monitor_props invalidationWiring=C11
+//@   monitor invalidationWiring
+//@     ghost cacheOptMade = false
+//@     ghost cacheOpt ref = nil
+//@     after call commands.WithCheckCommandCache args r, st returning o : cacheOptMade = r == deref(q).sharedDatastoreResources ; cacheOpt = o
+//@     before call commands.NewCheckCommand args ds, cr, ts, opts : assert cacheOptMade && (exists i int :: 0 <= i && i < len(opts) && opts[i] == cacheOpt)
+//@   monitor confirm
+//@     ghost sidC = false
+//@     ghost sid string = ""
+//@     ghost relC = false
+//@     ghost rel string = ""
+//@     ghost usrC = false
+//@     ghost usr string = ""
+//@     ghost ctsC = false
+//@     ghost cts *openfgav1.ContextualTupleKeys = nil
+//@     ghost cxC = false
+//@     ghost cx *structpb.Struct = nil
+//@     ghost consC = false
+//@     ghost cons int = 0
+//@     ghost tkBuilt = false
+//@     ghost tk *openfgav1.CheckRequestTupleKey = nil
+//@     ghost executed = false
+//@     ghost execRes *commands.CheckResult = nil
+//@     ghost execErr error = nil
+//@     after call commands.listObjectsRequest.GetStoreId returning s : sidC = true ; sid = s
+//@     after call commands.listObjectsRequest.GetRelation returning s : relC = true ; rel = s
+//@     after call commands.listObjectsRequest.GetUser returning s : usrC = true ; usr = s
+//@     after call commands.listObjectsRequest.GetContextualTuples returning s : ctsC = true ; cts = s
+//@     after call commands.listObjectsRequest.GetContext returning s : cxC = true ; cx = s
+//@     after call commands.listObjectsRequest.GetConsistency returning s : consC = true ; cons = s
+//@     before call tuple.NewCheckRequestTupleKey args o, r, u : assert o == deref(res).Object && relC && r == rel && usrC && u == usr
+//@     after call tuple.NewCheckRequestTupleKey returning t : tkBuilt = true ; tk = t
+//@     before call (*commands.CheckQuery).Execute args _, _, p : assert p != nil && sidC && p.StoreID == sid && tkBuilt && p.TupleKey == tk && ctsC && p.ContextualTuples == cts && cxC && p.Context == cx && consC && p.Consistency == cons
+//@     after call (*commands.CheckQuery).Execute returning r, e : executed = true ; execRes = r ; execErr = e
+//@     before call commands.trySendObject args _, o, cnt, mx, ch : assert executed && execErr == nil && execRes != nil && execRes.Allowed && o == deref(res).Object && cnt == objectsFound && mx == deref(maxResults) && ch == deref(resultsChan)
